@@ -368,6 +368,13 @@ func TestSim(t *testing.T) {
 		if err := json.Unmarshal(data, &list); err != nil {
 			die(2, "harness: %v", err)
 		}
+		if salt := os.Getenv("SIM_SENTINEL_SALT"); salt != "" && os.Getenv("SIM_NOPOOL") == "" {
+			// Reproduce the batch worker's start-up history too.
+			n, _ := strconv.ParseUint(salt, 10, 64)
+			if _, err := startSentinels(t, n); err != nil {
+				harness(err, "sentinels")
+			}
+		}
 		for i, raw := range list.Scenarios {
 			sc, err := ParseScenario(raw)
 			if err != nil {
